@@ -263,6 +263,29 @@ def rule_stable(node, tree):
     return True
 
 
+def canon_decimals(node, t):
+    """The value tree with every bytes-backed decimal in its shortest two's-complement form."""
+    from ..ref.schema import deref
+    node = deref(node)
+    k = node.kind
+    try:
+        if k == "bytes" and node.logical == "decimal" and isinstance(t, tuple) and t[0] == "bytes" and t[1]:
+            n = int.from_bytes(t[1], "big", signed=True)
+            return ("bytes", n.to_bytes(max(1, (n.bit_length() + 8) // 8 if n >= 0 else ((n + 1).bit_length() + 8) // 8), "big", signed=True))
+        if k == "union" and t[0] == "union":
+            i, child = t[1]
+            return ("union", (i, canon_decimals(node.branches[i], child)))
+        if k == "record" and t[0] == "record":
+            return ("record", [canon_decimals(f.type, c) for f, c in zip(node.fields, t[1])])
+        if k == "array" and t[0] == "array":
+            return ("array", [canon_decimals(node.items, c) for c in t[1]])
+        if k == "map" and t[0] == "map":
+            return ("map", [(key, canon_decimals(node.values, c)) for key, c in t[1]])
+    except Exception:
+        pass
+    return t
+
+
 def write_bytes(fa, schema_arg, d, dtn):
     out = io.BytesIO()
     fa.schemaless_writer(out, schema_arg, d, disable_tuple_notation=dtn)
@@ -311,7 +334,10 @@ def one_case(sh, fa, rng, case, dtn, det_log):
     except RB.DecodeError as e:
         sh.violation("bytes-undecodable", str(e), info)
         return
-    got = RB.strip_spans(tree)
+    # a decimal's two's-complement bytes need not be of minimal length (C16 judges the number):
+    # both sides are brought to the minimal form before the branch indices are compared
+    got = canon_decimals(node, RB.strip_spans(tree))
+    exp = [canon_decimals(node, e) if e not in ("nobranch", "error") else e for e in exp]
     if not any(RC.same(got, e) for e in exp):
         # locate the first differing union for the message
         sh.violation("branch-rule-violated", "bytes select %s, the statement's rule gives %s" % (printable(got, 260), printable(exp[0], 260)), info)
